@@ -594,9 +594,26 @@ pub fn compile_on_schedule(project: Project, cfg: &Config, threads: usize, yield
         let mut rng = Rng::new(prefix_seed);
         // A prefix of unrelated queries, some on clones on other threads.
         if prefix_seed != 0 {
-            let n = rng.below(4);
+            let n = 1 + rng.below(4);
             for _ in 0..n {
-                match rng.below(4) {
+                match rng.below(8) {
+                    4..=7 => {
+                        // The Sierra of single functions of the project, in a seeded order (later
+                        // ones first as often as not): interning happens in another order.
+                        verif::count("c12.prefix.function_level", 1);
+                        if let Ok(mut fns) = cairo_lang_sierra_generator::program_generator::find_all_free_function_ids(&db, ids.clone()) {
+                            verif::count("c12.prefix.functions_listed", fns.len() as u64);
+                            for i in (1..fns.len()).rev() {
+                                fns.swap(i, rng.below(i + 1));
+                            }
+                            for f in fns.into_iter().take(1 + rng.below(10)) {
+                                match cairo_lang_compiler::get_sierra_program_for_functions(&db, vec![f]) {
+                                    Ok(_) => verif::count("c12.prefix.single_function_sierra_ok", 1),
+                                    Err(_) => verif::count("c12.prefix.single_function_sierra_err", 1),
+                                }
+                            }
+                        }
+                    }
                     0 => {
                         let _ = comp::diagnostics(&db, &inputs);
                     }
@@ -694,7 +711,7 @@ pub fn c12_worker(ctx: &mut Ctx) {
         vec![Project::Examples, Project::Playground, Project::StarknetTests],
         vec![Project::Examples, Project::Playground, Project::StarknetTests, Project::BugSamples],
     );
-    let runs_per_project: u64 = ctx.tier.pick(10, 60);
+    let runs_per_project: u64 = ctx.tier.pick(14, 60);
     let cfgs = [Config::DEFAULT, Config { opt: Some((Inl::Avoid, false)), ..Config::DEFAULT }];
     let mut case = 0u64;
     for project in projects {
@@ -757,6 +774,12 @@ pub fn c12_worker(ctx: &mut Ctx) {
                 }
                 ctx.maybe_flush();
             }
+            for (k, v) in verif::counters() {
+                if k.starts_with("c12.prefix.") {
+                    ctx.count(&format!("{k}"), v);
+                }
+            }
+            verif::reset_counters();
             ctx.count("distinct_raw_id_fingerprints", fingerprints.len() as u64);
             ctx.set_add("fingerprints_per_project", &format!("{}[{}]={}", project.name(), cfg.name(), fingerprints.len()));
             if fingerprints.len() < 2 {
